@@ -156,6 +156,8 @@ class Executor:
         if isinstance(v, VUnion):
             return simp(disj([z3.And(g, self.truthy(state, a)) for g, a in v.alts]))
         if isinstance(v, VOpaque):
+            if v.tag.startswith("truthval"):
+                return z3.Bool("truthy!" + v.tag)       # an immutable value of unknown type: one fixed truth value
             if v.tag.startswith("matchobj"):
                 return z3.BoolVal(True)         # re match objects are always truthy
             return z3.Bool(fresh_name("truthy_" + v.tag))
